@@ -672,3 +672,119 @@ Proof.
   intros (ps & Hok & Hne & ->). exists (ind_pieces n true ps).
   split; [apply ind_pieces_ok, Hok|]. split; [apply ind_pieces_noesc, Hne|apply (indent_text_pieces sty), Hok].
 Qed.
+
+(* ------------------------------------------------------------------ 3. writing a good line never fails *)
+Definition ansi_kind (k : fkind) : bool := match k with FAnsi _ => true | _ => false end.
+(* the output decorates: formatting is on and the formatter is the ANSI one *)
+Definition decorated (o : outp) : bool := o_on o && ansi_kind (f_kind (o_fmt o)).
+(* an ordinary output (not a section) with a pastel formatter (ANSI or plain) whose style stack is empty *)
+Definition out_ok (sty : styles) (o : outp) : Prop :=
+  o_sec o = false /\ f_kind (o_fmt o) <> FNull /\ f_stack (o_fmt o) = [] /\ f_styles (o_fmt o) = sty.
+(* the pieces of the line once Output.write has indented it *)
+Definition wpieces (ind : Z) (ps : list piece) : list piece := if (0 <? ind)%Z then ind_pieces ind true ps else ps.
+Definition windent (ind : Z) (s : str) : str := if (0 <? ind)%Z then indent_text ind s else s.
+
+Lemma wpieces_str sty ind ps : pieces_ok sty ps -> windent ind (line_str ps) = line_str (wpieces ind ps).
+Proof. intros H. unfold windent, wpieces. destruct (0 <? ind)%Z; [apply (indent_text_pieces sty), H|reflexivity]. Qed.
+Lemma wpieces_ok sty ind ps : pieces_ok sty ps -> pieces_ok sty (wpieces ind ps).
+Proof. intros H. unfold wpieces. destruct (0 <? ind)%Z; [apply ind_pieces_ok, H|exact H]. Qed.
+Lemma wpieces_noesc ind ps : pieces_noesc ps -> pieces_noesc (wpieces ind ps).
+Proof. intros H. unfold wpieces. destruct (0 <? ind)%Z; [apply ind_pieces_noesc, H|exact H]. Qed.
+
+Lemma write_unfold o ind s : o_sec o = false ->
+  write (with_indent o ind) s true true =
+  do x <- (if o_on o then format (o_fmt o) (windent ind s) None else remove_format (o_fmt o) (windent ind s));
+  Ok {| o_indent := ind; o_on := o_on o; o_sec := false; o_fmt := fst x; o_buf := o_buf o ++ snd x ++ [NL] |}.
+Proof.
+  intros H. unfold write, windent, with_buf, with_indent. cbn [o_indent o_on o_sec o_fmt o_buf]. rewrite H.
+  cbn [andb orb bind]. rewrite Bool.andb_true_r. reflexivity.
+Qed.
+
+Lemma fmt_pieces sty f (on : bool) ps :
+  f_kind f <> FNull -> f_stack f = [] -> f_styles f = sty -> pieces_ok sty ps ->
+  (on && ansi_kind (f_kind f) = true -> pieces_noesc ps) ->
+  exists text,
+    (if on then format f (line_str ps) None else remove_format f (line_str ps))
+    = Ok ({| f_kind := f_kind f; f_styles := f_styles f; f_stack := [] |}, text)
+    /\ (if on && ansi_kind (f_kind f) then strip_sgr text else text) = flat_map piece_shown ps.
+Proof.
+  intros Hk Hs Hst Hok Hne. subst sty. destruct on.
+  - unfold format. destruct (f_kind f) as [fb| |] eqn:EK; [| |congruence]; cbn [andb ansi_kind] in *.
+    + destruct (line_decorated (f_styles f) (f_stack f) ps Hok (Hne eq_refl)) as (out & HC & HS).
+      rewrite HC. cbn [bind fst snd]. rewrite Hs. exists out. split; [reflexivity|exact HS].
+    + rewrite (line_plain (f_styles f) (f_stack f) ps Hok). cbn [bind fst snd]. rewrite Hs. eexists. split; reflexivity.
+  - unfold remove_format. cbn [andb]. destruct (f_kind f) as [fb| |] eqn:EK; [| |congruence];
+      rewrite (line_plain (f_styles f) (f_stack f) ps Hok); cbn [bind fst snd]; rewrite Hs; eexists; split; reflexivity.
+Qed.
+
+(* one write_line of a good line at indentation ind *)
+Theorem write_pieces sty o ind ps :
+  out_ok sty o -> pieces_ok sty ps -> (decorated o = true -> pieces_noesc ps) ->
+  exists o' text,
+    write (with_indent o ind) (line_str ps) true true = Ok o' /\
+    out_ok sty o' /\ o_on o' = o_on o /\ f_kind (o_fmt o') = f_kind (o_fmt o) /\
+    o_buf o' = o_buf o ++ text ++ [NL] /\
+    (if decorated o then strip_sgr text else text) = flat_map piece_shown (wpieces ind ps).
+Proof.
+  intros (Hsec & Hk & Hs & Hst) Hok Hne. rewrite (write_unfold o ind _ Hsec), (wpieces_str sty ind ps Hok).
+  destruct (fmt_pieces sty (o_fmt o) (o_on o) (wpieces ind ps) Hk Hs Hst (wpieces_ok sty ind ps Hok)) as (text & HF & HT).
+  { intros Hd. apply wpieces_noesc, Hne, Hd. }
+  rewrite HF. cbn [bind fst snd]. eexists. exists text. split; [reflexivity|].
+  cbn [o_sec o_on o_fmt o_buf f_kind f_stack f_styles]. unfold out_ok. cbn [o_sec o_on o_fmt o_buf f_kind f_stack f_styles].
+  repeat split; try assumption; try reflexivity.
+Qed.
+Corollary write_good sty o ind l : out_ok sty o -> good_line sty l -> (decorated o = true -> no_esc l) ->
+  exists o', write (with_indent o ind) l true true = Ok o' /\ out_ok sty o' /\ o_on o' = o_on o /\ f_kind (o_fmt o') = f_kind (o_fmt o).
+Proof.
+  intros Ho (ps & Hok & ->) Hne. destruct (write_pieces sty o ind ps Ho Hok) as (o' & text & H1 & H2 & H3 & H4 & _).
+  { intros Hd. apply line_noesc, Hne, Hd. }
+  exists o'. split; [exact H1|]. split; [exact H2|]. split; [exact H3|exact H4].
+Qed.
+
+(* lines given by their pieces *)
+Definition pline := (Z * list piece)%type.
+Definition pline_w (p : pline) : wline := (fst p, line_str (snd p)).
+Definition shown_line (p : pline) : str := flat_map piece_shown (wpieces (fst p) (snd p)) ++ [NL].
+
+Lemma decorated_keep o o' : o_on o' = o_on o -> f_kind (o_fmt o') = f_kind (o_fmt o) -> decorated o' = decorated o.
+Proof. intros H1 H2. unfold decorated. now rewrite H1, H2. Qed.
+
+Theorem write_lines_pieces sty : forall (pls : list pline) o,
+  out_ok sty o -> Forall (fun p => pieces_ok sty (snd p)) pls -> (decorated o = true -> Forall (fun p => pieces_noesc (snd p)) pls) ->
+  exists o', write_lines o (map pline_w pls) = Ok o' /\ out_ok sty o' /\ o_on o' = o_on o /\ f_kind (o_fmt o') = f_kind (o_fmt o) /\
+    (decorated o = false -> o_buf o' = o_buf o ++ flat_map shown_line pls).
+Proof.
+  induction pls as [|[ind ps] r IH]; intros o Ho Hok Hne.
+  - exists o. cbn [map write_lines flat_map]. rewrite app_nil_r. split; [reflexivity|]. split; [exact Ho|]. repeat split; reflexivity.
+  - inversion Hok as [|? ? Hp Hr]; subst. cbn [snd] in Hp.
+    destruct (write_pieces sty o ind ps Ho Hp) as (o1 & text & HW & Ho1 & Hon1 & Hk1 & Hb1 & Ht1).
+    { intros Hd. specialize (Hne Hd). inversion Hne; subst. assumption. }
+    pose proof (decorated_keep o o1 Hon1 Hk1) as Hd1.
+    destruct (IH o1 Ho1 Hr) as (o2 & HW2 & Ho2 & Hon2 & Hk2 & Hb2).
+    { rewrite Hd1. intros Hd. specialize (Hne Hd). inversion Hne; subst. assumption. }
+    exists o2. cbn [map write_lines pline_w fst snd]. rewrite HW. cbn [bind]. split; [exact HW2|]. split; [exact Ho2|].
+    split; [congruence|]. split; [congruence|]. intros Hd. rewrite Hd1 in Hb2. rewrite (Hb2 Hd), Hb1. rewrite Hd in Ht1.
+    cbn [flat_map]. change (shown_line (ind, ps)) with (flat_map piece_shown (wpieces ind ps) ++ [NL]). rewrite Ht1, <- !app_assoc. reflexivity.
+Qed.
+
+(* good lines are lines given by pieces *)
+Lemma good_lines_pieces sty : forall ls, Forall (fun wl : wline => good_line sty (snd wl)) ls ->
+  exists pls, ls = map pline_w pls /\ Forall (fun p => pieces_ok sty (snd p)) pls.
+Proof.
+  induction 1 as [|[ind l] r (ps & Hok & Hl) Hr (pls & E & Hpls)]; [exists []; split; [reflexivity|constructor]|].
+  cbn [snd] in Hl. subst l r. exists ((ind, ps) :: pls). split; [reflexivity|]. constructor; assumption.
+Qed.
+Lemma pieces_lines_noesc : forall pls, Forall (fun wl : wline => no_esc (snd wl)) (map pline_w pls) -> Forall (fun p : pline => pieces_noesc (snd p)) pls.
+Proof.
+  induction pls as [|p r IH]; intros H; [constructor|]. cbn [map] in H. inversion H as [|? ? Hp Hr]; subst.
+  constructor; [apply line_noesc, Hp|apply IH, Hr].
+Qed.
+Theorem write_lines_good sty ls o :
+  out_ok sty o -> Forall (fun wl => good_line sty (snd wl)) ls -> (decorated o = true -> Forall (fun wl => no_esc (snd wl)) ls) ->
+  exists o', write_lines o ls = Ok o' /\ out_ok sty o' /\ o_on o' = o_on o /\ f_kind (o_fmt o') = f_kind (o_fmt o).
+Proof.
+  intros Ho HG Hne. destruct (good_lines_pieces sty ls HG) as (pls & -> & Hpls).
+  destruct (write_lines_pieces sty pls o Ho Hpls) as (o' & H1 & H2 & H3 & H4 & _).
+  { intros Hd. apply pieces_lines_noesc, Hne, Hd. }
+  exists o'. split; [exact H1|]. split; [exact H2|]. split; [exact H3|exact H4].
+Qed.
